@@ -30,7 +30,8 @@ PROPS["C16"] = {
                   " Round 5: form feed joins the exhaustive alphabet (a blank the documentation does not mention: the reference abstains, the token-truth invariants still apply); the source span of a word is computed letter by letter (case folding may change the byte length of a letter); the native fuzz leg no longer filters its inputs."
                   " Round 6: the bytes 0xC3 and 0xA0 join the exhaustive alphabet (together the letter a-grave, whose last byte read alone is the Latin-1 no-break space); words ending in such letters in the spacing leg."
                   " Round 7: letters whose lower-case form has another byte length (U+023A, U+212A, U+0130, U+2126) in the words and literal contents of the spacing leg."
-                  " Round 10: the carriage return joins the exhaustive alphabet (32 symbols), and the spacing leg draws what a gap is made of: space, tab, line end, CR LF, CR, space + CR LF.",
+                  " Round 10: the carriage return joins the exhaustive alphabet (32 symbols), and the spacing leg draws what a gap is made of: space, tab, line end, CR LF, CR, space + CR LF."
+                  " Round 12: the backslash joins the exhaustive alphabet (33 symbols) and the literal contents of the spacing leg (the language has no escape sequences: a quote behind a backslash closes its literal).",
     "rule": "leg Exhaustive: every string of length 1..L over the 25-symbol token alphabet "
             "{a 1 . space ' \" ` = ! < > ^ ~ & | ( ) [ ] , ; + - * /} (L=4 quick, L=5 thorough), each emitted exactly once; "
             "leg Spacing: rapid-generated token sequences (<=8 tokens: keywords in mixed case, names, numbers, floats, "
@@ -191,7 +192,8 @@ PROPS["C03"] = {
                   "Row-ok/batch-error is allowed (row mode short-circuits & and |) and counted."
                   " Row and batch iteration are compared under the SAME batch-size setting (statements that drive their child in chunks evaluate ahead according to the setting in either mode); rows are also compared across the two settings whenever both row runs complete."
                   " Round 6: leg TestC03Dynamic - the templates of C06's dynamic leg (every operator family and function over json(value)['m'], member against member) over runs of pairs whose members are a number, a text, a Boolean, null, an array or an object: whenever batch iteration answers, row iteration must answer the same."
-                  " Round 9: is_int / is_float are also applied to numeric expressions (an integer or a float when evaluated).",
+                  " Round 9: is_int / is_float are also applied to numeric expressions (an integer or a float when evaluated)."
+                  " Round 12: two long damaged JSON documents joined the hostile value pool.",
     "rule": "rapid: store kind x size (0..70) x two batch sizes x statement (60% SELECT with aliases/aggregates/order/limit, 10% DELETE, 15% PUT, 15% REMOVE) "
             "with exotic constructs enabled. Non-trivial = both modes complete, the result has >= 2 rows or spans more than one chunk, and the "
             "statement uses a construct with a twin implementation (function, alias, index, aggregate, order, limit, write); "
@@ -289,7 +291,8 @@ PROPS["C06"] = {
                   " Later widening: every query text also goes through BuildExecutor; quantile percents outside [0, 1] written as constant expressions; leg TestC06Chains plans and runs chains of up to 40 named fields that each use the previous name twice (also as parameter of quantile / group_concat) under a 20 s deadline per statement - the one place where wall-clock time decides, four orders of magnitude above the linear cost."
                   " Round 5: leg TestC06NameGraph - select lists over a pool of three names in which fields name themselves, each other and repeat names (the first definition counts), the names also used in WHERE / ORDER BY / GROUP BY: a definition cycle that slips through the check overflows the stack."
                   " Round 8: leg TestC06Arity calls every function and aggregate (and an unknown one) with 0 to 4 arguments of several kinds, as a field, grouped, inside WHERE and as a group column, over all pairs of the hostile stores."
-                  " Round 9: the arity leg also writes every call as the NAME of a call (lower()(1)), in a select field and as a REMOVE key.",
+                  " Round 9: the arity leg also writes every call as the NAME of a call (lower()(1)), in a select field and as a REMOVE key."
+                  " Round 12: two long damaged JSON documents joined the hostile value pool.",
     "rule": "rapid legs Grammar/Corrupt + deterministic legs Long/Seeds (+ native fuzz executions in the thorough tier, counted as evaluations only). "
             "Non-trivial = the statement reached execution (plan built and at least one storage read) or it was rejected with a positional error; "
             "distinct = distinct (query text, store size).",
@@ -328,7 +331,8 @@ PROPS["C14"] = {
                   " Later widening: leg TestC14Matrix runs every operator over every pair of operand forms of every static type (15 forms, as select field, as WHERE and as a field beside count(1) .. group by key): whatever the verdict, it must come at plan build - rejected with zero storage calls, or accepted and never failing with an operand-type error; raw-text forms for shapes the AST cannot express (faults in a second subscript, key in a put key, aggregates in aggregate arguments / GROUP BY / WHERE) and for shapes that must be accepted (Boolean literals under and/or, ! under comparisons, a Boolean name as the whole WHERE); half of the mutant hosts use the wider language (JSON cascades)."
                   " Round 5: a JSON-typed operand form (json('{..}')) joins the matrix (16 forms)."
                   " Round 6: leg TestC14Forms draws, as text, families of faults the AST cannot express - a fault in the 2nd..4th subscript of a cascade (also on a named JSON field), an aggregate inside the argument of an aggregate (directly, below scalar calls, through a chain of names, the name also used outside the aggregate), an aggregate reached through GROUP BY or standing in WHERE / DELETE / PUT / REMOVE, a subscript behind a list element, a list or JSON field beside an aggregate. Every form comes with its control, the same text with the fault taken out: the form must be refused with zero storage calls AND the control must be accepted (a refused control is a violation of the converse sentence, and shows a form that would be refused for the wrong reason)."
-                  " Round 8: an element of a list of texts (split(value, ',')[0]) joins the operand forms of the matrix (17 forms).",
+                  " Round 8: an element of a list of texts (split(value, ',')[0]) joins the operand forms of the matrix (17 forms)."
+                  " Round 12: one well-typed case in eight is `select key, split(value, ',')[n] where split(value, ',')[n] <op> '<lit>'` over 2..9 values that split into 1..4 parts (lists of different lengths in one chunk, the index past the end of some).",
     "rule": "deterministic fault x position grid (each cell once) + rapid mutants + rapid well-typed statements. Non-trivial = a mutant whose fault is "
             "not at the root of WHERE / a select field / a PUT or REMOVE operand, a grid cell, or a well-typed statement with at least two operators; "
             "distinct = distinct statements.",
@@ -359,7 +363,8 @@ PROPS["C17"] = {
                   " Round 5: blanks the documentation does not mention (form feed, vertical tab, NBSP, U+3000) in front of tokens, for one statement in four behind every space; where the reference abstains, no token start may lie ON a blank."
                   " Round 6: one statement in five is written over several lines (CRLF, LF, tabs): positions are checked, the line-oriented rendering is not; every error returned by BuildPlan, whatever its Go type, must point at 0, -1 or a token start."
                   " Round 7: after the first rendering is verified the padding of the SAME error is changed and the rendering verified again."
-                  " Round 9: the undocumented blanks are also glued behind the token in front of the space.",
+                  " Round 9: the undocumented blanks are also glued behind the token in front of the space."
+                  " Round 12: two long JSON documents that are damaged far behind their start are among the hostile stored values (an offset into a value is no offset into the query).",
     "rule": "rapid legs Corrupt / RunTime / Typed (+ native fuzz executions in the thorough tier). Non-trivial = a positional error with Pos >= 0 in a "
             "query longer than 70 bytes or with leading blanks; distinct = distinct (query, padding mode).",
     "assumptions": ["Go toolchain and pgregory.net/rapid v1.3.0 are trusted", "token starts are taken from the engine lexer (validated by C16) and from the reference tokeniser"],
@@ -571,7 +576,8 @@ PROPS["C19"] = {
                   " Later widening: one statement in ten uses the short form without a select part."
                   " Round 5: aggregate statements whose quantile percent / group_concat separator is given through a chain of named constant fields (evaluated when the plan is built)."
                   " Round 6: what a plan says about itself (Explain lines, field names and types) is part of the compared outcome; one statement in ten uses names the process has not printed before (in plan descriptions and in refusal messages)."
-                  " Round 9: the store that all readers share hands out the same slices to every one of them (guarded spare capacity, checked after the statements; the race detector sees the rest).",
+                  " Round 9: the store that all readers share hands out the same slices to every one of them (guarded spare capacity, checked after the statements; the race detector sees the rest)."
+                  " Round 12: one statement in eleven orders by a JSON member (`json(value or a literal document)['m'] as f1 .. order by f1, key`): values of dynamic kind in a column typed as text are rendered by the comparator.",
     "rule": "rapid statement sets x GOMAXPROCS x repeats. Non-trivial = at least 2 goroutines and at least 2 of the statements are aggregate or alias "
             "statements; distinct = distinct (statement set, modes, GOMAXPROCS, store).",
     "assumptions": COMMON_ASSUMPTIONS + ["the Go race detector's happens-before analysis is trusted"],
